@@ -400,6 +400,68 @@ fn session_plans(tier: Tier) -> Vec<Plan> {
     v
 }
 
+/// What a REFUSED call leaves behind: on a small universe with a chain three levels deep, a call
+/// that fails without changing anything observable still opens a state of its own (one per
+/// history), so every call of the alphabet is also made after every refused call, and after
+/// everything that can follow it.
+fn residue_plans(tier: Tier, overlays: bool, plain_too: bool) -> Vec<Plan> {
+    let u = Universe::new("U_res{a,a/b,a/b/c,d}", &["/a", "/a/b", "/a/b/c", "/d"]);
+    let mut al = alphabet(u.clone(), &W1, 1, tier == Tier::Thorough);
+    al.residue = true;
+    let mut v = vec![];
+    if plain_too {
+        v.push(plain(Cfg::Mem, Order::Asc, al.clone()));
+        v.push(plain(Cfg::Phys, Order::Asc, al.clone()));
+        v.push(plain(Cfg::alt(Cfg::Mem, "/Z"), Order::Asc, al.clone()));
+    }
+    if overlays {
+        let mut alo = alphabet(Universe::new("U_res{a,a/b,d}", &["/a", "/a/b", "/d"]), &W1, 1, false);
+        alo.residue = true;
+        if tier == Tier::Thorough {
+            v.push(populated(
+                mem2(),
+                Order::Asc,
+                alo.clone(),
+                &Universe::new("U2{a,a/b}", &["/a", "/a/b"]),
+                false,
+            ));
+        } else {
+            // quick: one layering (a directory with a file in the lower layer, nothing above it)
+            let layers: Vec<Vec<(String, Node)>> = vec![
+                vec![],
+                vec![("/a".to_string(), Node::Dir), ("/a/b".to_string(), Node::File(b"l".to_vec()))],
+            ];
+            v.push(Plan {
+                cfg: mem2(),
+                order: Order::Asc,
+                alpha: alo.clone(),
+                inits: vec![InitSpec {
+                    label: "{} over {/a/, /a/b=l}".into(),
+                    init: layers.iter().enumerate().map(|(i, l)| (i, l.clone())).collect(),
+                    model: Model::union_of(&layers),
+                }],
+            });
+        }
+        if tier == Tier::Thorough {
+            v.push(populated(
+                Cfg::Ov(vec![Cfg::Mem, Cfg::Mem, Cfg::Mem]),
+                Order::Asc,
+                alo.clone(),
+                &Universe::new("U2{a,a/b}", &["/a", "/a/b"]),
+                false,
+            ));
+            v.push(populated(
+                phys2(),
+                Order::Asc,
+                alo,
+                &Universe::new("U2{a,a/b}", &["/a", "/a/b"]),
+                false,
+            ));
+        }
+    }
+    v
+}
+
 struct Spec {
     domain: Domain,
     mon: Monitors,
@@ -432,6 +494,7 @@ fn spec_for(id: &str, tier: Tier) -> Spec {
                     true,
                 ));
             }
+            plans.extend(residue_plans(tier, true, true));
             Spec {
                 domain: Domain::Typed,
                 mon: Monitors {
@@ -452,7 +515,11 @@ fn spec_for(id: &str, tier: Tier) -> Spec {
                 panics: true,
                 ..Default::default()
             },
-            plans: overlay_plans(tier),
+            plans: {
+                let mut p = overlay_plans(tier);
+                p.extend(residue_plans(tier, true, false));
+                p
+            },
             observers: false,
             rule: typed_rule,
             assumptions: base_assume,
@@ -464,7 +531,11 @@ fn spec_for(id: &str, tier: Tier) -> Spec {
                 markers_hidden: true,
                 ..Default::default()
             },
-            plans: overlay_plans(tier),
+            plans: {
+                let mut p = overlay_plans(tier);
+                p.extend(residue_plans(tier, true, false));
+                p
+            },
             observers: false,
             rule: typed_rule,
             assumptions: base_assume,
@@ -473,6 +544,7 @@ fn spec_for(id: &str, tier: Tier) -> Spec {
             let mut plans = base_plans(tier);
             plans.extend(overlay_plans(tier));
             plans.extend(session_plans(tier));
+            plans.extend(residue_plans(tier, true, true));
             Spec {
                 domain: Domain::Unrestricted {
                     root_removal: false,
@@ -491,6 +563,7 @@ fn spec_for(id: &str, tier: Tier) -> Spec {
             let mut plans = base_plans(tier);
             plans.extend(overlay_plans(tier));
             plans.extend(session_plans(tier));
+            plans.extend(residue_plans(tier, true, true));
             Spec {
                 domain: Domain::Unrestricted {
                     root_removal: false,
@@ -508,6 +581,7 @@ fn spec_for(id: &str, tier: Tier) -> Spec {
         "C12" => {
             let mut plans = base_plans(tier);
             plans.extend(overlay_plans(tier));
+            plans.extend(residue_plans(tier, true, true));
             Spec {
                 domain: Domain::Typed,
                 mon: Monitors {
@@ -682,6 +756,12 @@ pub fn run(ctx: &Ctx, id: &str) -> i32 {
         println!("  [join: invalid-path classification of every string up to the bound] evaluations={} violations={}", n, v.len());
         stats.push(Stats { label: "join strings: invalid-path classification".into(), states: 1, transitions: n, fixpoint: true, ..Default::default() });
         vio.extend(v);
+        // the read-only backend: every operation on every path of the embedded fixture (separator
+        // variants of its names included), kinds and paths of the errors only
+        let (n, v) = super::embedprops::classification_sweep();
+        println!("  [EmbeddedFS: error kinds and paths of every operation on every fixture path] evaluations={} violations={}", n, v.len());
+        stats.push(Stats { label: "EmbeddedFS fixture: error classification".into(), states: 1, transitions: n, fixpoint: true, ..Default::default() });
+        vio.extend(crate::handle::dedupe(v));
         let (st, v) = c12_extras(ctx);
         println!(
             "  [{}] evaluations={} violations={}",
